@@ -509,6 +509,15 @@ def cases(tier, seed):
         yield {"kind": "type", "t": t, "values": vals}
     yield {"kind": "type", "t": "datetime[]", "values": ["[dt(2020,1,1,12,0,0,tz=UTC)]", "[dt(2020,1,1,14,0,0,tz=off(2))]", "[dt(2020,1,1,12,0,0,tz=off(2))]", "[]",
                                                         "[dt(2020,1,1,12,0,0,tz=UTC), dt(2020,1,1,14,0,0,tz=off(2))]", "[dt(2020,1,1,14,0,0,tz=off(2)), dt(2020,1,1,12,0,0,tz=UTC)]"]}
+    # size classes of container values: N dicts / N keys / N elements, spelt in two key orders and with one late difference
+    for n in (2, 9, 63, 64, 65, 129, 1025) + ((4097,) if thorough else ()):
+        yield {"kind": "type", "t": "dictlist", "values": ["[{'a': i, 'b': 2} for i in range(%d)]" % n, "[{'b': 2, 'a': i} for i in range(%d)]" % n,
+                                                             "[{'a': i, 'b': 2 + (i == %d)} for i in range(%d)]" % (n - 1, n),
+                                                             "[dict(('k%%d' %% i, i) for i in range(%d))]" % n, "[dict(('k%%d' %% i, i) for i in range(%d, -1, -1))]" % (n - 1),
+                                                             "[dict(('k%%d' %% i, i + (i == %d)) for i in range(%d))]" % (n - 1, n)]}
+        yield {"kind": "type", "t": "string[]", "values": ["['s%%d' %% i for i in range(%d)]" % n, "tuple('s%%d' %% i for i in range(%d))" % n, "['s%%d' %% (i + (i == %d)) for i in range(%d)]" % (n - 1, n)]}
+        yield {"kind": "type", "t": "stringlist", "values": ["['s%%d' %% i for i in range(%d)]" % n, "['s%%d' %% (i + (i == %d)) for i in range(%d)]" % (n - 1, n)]}
+        yield {"kind": "type", "t": "varint[]", "values": ["list(range(%d))" % n, "[int(i) for i in range(%d)]" % n, "list(range(1, %d))" % (n + 1)]}
     for t in LISTABLE:
         el = [v for v in alphabet(t, seed, with_none=False) if small(v)][:4]
         vals = ["None", "[]"] + ["[%s]" % e for e in el] + ["[%s, %s]" % (a, b) for a, b in itertools.product(el[:3], repeat=2)]
